@@ -19,7 +19,7 @@ func init() {
 		Rules: []rule{
 			{"C16.keep-set", "removal only for parsed ids that miss in the keep set", 4, c16KeepSet},
 			{"C16.format-filter-by-option", "extension filters depend on the Uncompressed option and match its branch", 5, c16FormatFilter},
-			{"C16.tmp-files", "abandoned temp chunk files are removed before the extension filter", 2, c08Prefix},
+			{"C16.tmp-files", "abandoned temp chunk files are removed before the extension filter (local store), and the SFTP store removes the leftovers of interrupted uploads", 2, func(c *Ctx) { c08Prefix(c); c16SFTPTemp(c) }},
 			{"C16.listing-errors", "listing/walk errors fail Prune", 4, c16ListingErrors},
 			{"C16.pool-reentrancy", "no nested pool token acquisition", 4, func(c *Ctx) { c.poolReentrancy("SFTPStore", "pool"); c.poolReentrancy("RemoteSSH", "pool") }},
 			{"C16.name-roundtrip", "object-store idFromName undoes nameFromID (whole-string prefix and extension removal)", 3, c16NameRoundtrip},
@@ -75,6 +75,52 @@ func c16KeepSet(c *Ctx) {
 					})
 					if isTmp {
 						continue
+					}
+				}
+				// the removal of an interrupted upload by the SFTP store: the file is removed under the
+				// path it was found at, behind a predicate over that path that ties the name to a
+				// chunk id and to the place the store keeps that chunk (decided by C16.tmp-files)
+				if strings.HasSuffix(callee(rm), "sftp.Client).Remove") && len(rm.Common().Args) > 1 {
+					isWalked := func(v ssa.Value) bool {
+						return hasOrigin(v, func(o string) bool { return strings.Contains(o, "Walker).Path#0") }) &&
+							onlyOrigins(v, func(o string) bool { return strings.Contains(o, "Walker).Path#0") || strings.HasPrefix(o, "param:") })
+					}
+					if isWalked(rm.Common().Args[1]) {
+						isTmp, _ := guarded(f, rm.(ssa.Instruction), func(iff *ssa.If) (bool, bool) {
+							cl, ok := stripNot(iff.Cond).(*ssa.Call)
+							if !ok {
+								return false, false
+							}
+							pred := c.staticFn(cl)
+							if pred == nil || pred.Blocks == nil {
+								return false, false
+							}
+							onPath := false
+							for _, a := range cl.Call.Args {
+								if isWalked(a) {
+									onPath = true
+								}
+							}
+							parses, placed := false, false
+							instrsAll(pred, func(_ *ssa.BasicBlock, _ int, in2 ssa.Instruction) {
+								if c2, ok := in2.(*ssa.Call); ok {
+									switch callee(c2) {
+									case "desync.ChunkIDFromString":
+										parses = true
+									case "desync.isChunkPath":
+										placed = true
+									}
+								}
+							})
+							if !onPath || !parses || !placed {
+								return false, false
+							}
+							neg := stripNot(iff.Cond) != iff.Cond
+							return !neg, neg
+						})
+						if isTmp {
+							continue
+						}
 					}
 				}
 				n++
@@ -996,5 +1042,33 @@ func c16CanonicalPlace(c *Ctx) {
 		if n == 0 {
 			c.bad(key+":canonical-place", fn.Pos(), "no site found at which the walk hands an id on")
 		}
+	}
+}
+
+// c16SFTPTemp: the SFTP store uploads a chunk as <name><number> and renames it when it is
+// complete; a writer that dies in between leaves that file behind.  Prune of the SFTP store
+// removes such files like the local store removes its .tmp-cacnk files: the walk loop removes a
+// file *under the path it was found at* (not under a name built from a parsed id) on the edge of
+// a predicate over that path.
+func c16SFTPTemp(c *Ctx) {
+	fn := c.mustFn("SFTPStore.Prune")
+	if fn == nil {
+		return
+	}
+	n := 0
+	seen := map[ssa.Instruction]bool{}
+	instrsAll(fn, func(_ *ssa.BasicBlock, _ int, ins ssa.Instruction) {
+		x, ok := ins.(*ssa.Call)
+		if !ok || seen[ins] || !strings.HasSuffix(callee(x), "sftp.Client).Remove") || len(x.Call.Args) < 2 {
+			return
+		}
+		seen[ins] = true
+		if onlyOrigins(x.Call.Args[1], func(o string) bool { return strings.Contains(o, "Walker).Path#0") || strings.HasPrefix(o, "param:") }) && hasOrigin(x.Call.Args[1], func(o string) bool { return strings.Contains(o, "Walker).Path#0") || strings.HasPrefix(o, "param:") }) {
+			n++
+			c.ok("SFTPStore.Prune:temp-files", ins.Pos(), "a file is removed under the path it was found at (abandoned temporary upload)")
+		}
+	})
+	if n == 0 {
+		c.bad("SFTPStore.Prune:temp-files", fn.Pos(), "SFTPStore.Prune removes files only under names built from a parsed chunk id: the <name><number> file an interrupted upload leaves behind is never removed, prune reports success with abandoned temporary chunk files still in the store")
 	}
 }
